@@ -14,7 +14,7 @@ import (
 )
 
 func init() {
-	for _, p := range []string{"C02", "C18"} {
+	for _, p := range []string{"C02", "C18", "C04", "C01"} {
 		families[p] = append(families[p], stringAliasFamily)
 	}
 }
